@@ -15,12 +15,12 @@ CLAUSE_PROP = {
     "S_ok": "C05", "S_fit": "C05", "K_notstuck": "C05", "E_delivered": "C05",
     "S_seq": "C08", "S_retry": "C07", "B_seq": "C08", "B_ack": "C08", "V_win": "C08", "V_acked": "C08", "V_mcur": "C08",
     "B_size": "C09", "B_count": "C09", "B_together": "C09", "B_noraise": "C09", "E_left": "C09",
-    "B_sealed": "C03", "B_aad": "C03", "F_noeffect": "C01", "F_window": "C08", "B_sec": "C03", "B_rate": "C03", "B_dir": "C03",
+    "B_sealed": "C03", "B_aad": "C03", "F_noeffect": "C01", "F_window": "C08", "V_nolost": "C05", "V_ctxage": "C06", "B_sec": "C03", "B_rate": "C03", "B_dir": "C03",
     "R_pend": "C07", "R_time": "C07", "R_cbs": "C07", "R_true": "C07", "E_cb": "C07",
     "V_noraise": "C06", "V_accept": "C04", "V_dropwhole": "C04", "V_counted": "C04", "V_deliver": "C04", "V_once": "C04",
 }
 # clauses that more than one property relies on
-ALSO = {"F_window": ("C01", "C11"), "V_acked": ("C05", "C07"), "B_ack": ("C05", "C07"), "B_known": ("C04", "C05", "C07", "C06"), "V_exact": ("C04",), "E_left": ("C05", "C07"), "K_notstuck": ("C09", "C07", "C06"), "S_fit": ("C09", "C07", "C06"), "V_accept": ("C08",), "V_deliver": ("C06",), "S_ok": ("C09",), "B_seq": ("C03",)}
+ALSO = {"F_window": ("C01", "C11"), "V_nolost": ("C07",), "V_ctxage": ("C05",), "V_acked": ("C05", "C07"), "B_ack": ("C05", "C07"), "B_known": ("C04", "C05", "C07", "C06"), "V_exact": ("C04",), "E_left": ("C05", "C07"), "K_notstuck": ("C09", "C07", "C06"), "S_fit": ("C09", "C07", "C06"), "V_accept": ("C08",), "V_deliver": ("C06",), "S_ok": ("C09",), "B_seq": ("C03",)}
 
 
 def props_of(clause):
